@@ -40,8 +40,8 @@ func verifNullFree(n JsonNode) bool {
 	return true
 }
 
-// verifSetKeysOK: under SetKeys every object member of every array carries all the keys,
-// with scalar key values, and identities are unique within an array (the documented use).
+// verifSetKeysOK: under SetKeys every object member of every array carries all the keys, and
+// identities (the key values, read with the same options) are unique within an array.
 func verifSetKeysOK(n JsonNode, options []Option) bool {
 	keys, ok := getOption[setKeysOption](options)
 	if !ok {
@@ -49,18 +49,26 @@ func verifSetKeysOK(n JsonNode, options []Option) bool {
 	}
 	switch v := n.(type) {
 	case jsonArray:
+		var members []jsonObject
 		for _, e := range v {
 			if o, isObj := e.(jsonObject); isObj {
 				for _, k := range *keys {
-					kv, has := o[k]
-					if !has {
-						return false
-					}
-					switch kv.(type) {
-					case jsonArray, jsonObject:
+					if _, has := o[k]; !has {
 						return false
 					}
 				}
+				for _, m := range members {
+					same := true
+					for _, k := range *keys {
+						if !specEq(m[k], o[k], options) {
+							same = false
+						}
+					}
+					if same {
+						return false
+					}
+				}
+				members = append(members, o)
 			}
 			if !verifSetKeysOK(e, options) {
 				return false
@@ -76,7 +84,6 @@ func verifSetKeysOK(n JsonNode, options []Option) bool {
 	return true
 }
 
-// verifDomain: the (a, b, options) triples for which the round-trip property is claimed.
 func verifDomain(a, b JsonNode, options []Option) bool {
 	if checkOption[mergeOption](options) && (!verifNullFree(a) || !verifNullFree(b)) {
 		return false
@@ -463,6 +470,10 @@ func verifDiffText(a, b JsonNode, options []Option) bool {
 	return verifTextCarrier(a, a.Diff(b, options...), options)
 }
 
+// verifStringText (C02): the text round trip of diffs between documents made of awkward strings and
+// numbers (quotes, control characters, <>&, non-BMP runes, YAML-looking text, extreme numbers).
+func verifStringText(a, b JsonNode) bool { return verifDiffText(a, b, nil) }
+
 // verifWellFormed: hunks the text format can carry: strict hunks followed by merge hunks, every
 // value free of nil, multi-value hunks only on array paths, at least one change line per hunk,
 // void only as context marker or merge deletion.
@@ -644,6 +655,22 @@ func verifHunksReal(a, b JsonNode, options []Option) bool {
 			return false
 		}
 	}
+	// a set or multiset hunk never lists a member on both sides
+	for _, e := range d {
+		if len(e.Path) == 0 {
+			continue
+		}
+		switch e.Path[len(e.Path)-1].(type) {
+		case PathSet, PathMultiset, PathSetKeys, PathMultisetKeys:
+			for _, r := range e.Remove {
+				for _, x := range e.Add {
+					if specEq(r, x, verifEqualOptions(options)) {
+						return false
+					}
+				}
+			}
+		}
+	}
 	if !verifDomain(a, b, options) {
 		return true
 	}
@@ -726,6 +753,19 @@ func verifReadPatchFaithful(a, b, c JsonNode) bool {
 	}
 	return true
 }
+
+// verifBagSemantics (C08): verifSetSemantics over members that are arrays with repeated elements.
+func verifBagSemantics(a, b, c jsonArray, options []Option) bool {
+	return verifSetSemantics(a, b, c, options)
+}
+
+// verifBagEquals (C04): verifEquals over the same documents, at the root and under a key.
+func verifBagEquals(a, b JsonNode, options []Option) bool { return verifEquals(a, b, options) }
+
+// verifKeyedDiff (C01, C05, C07): the round trip, "empty iff equal" and "only real differences"
+// over arrays of keyed objects (scalar, array- and object-valued keys, members without the key
+// shape, several members in any order).
+func verifKeyedDiff(a, b JsonNode, options []Option) Diff { return a.Diff(b, options...) }
 
 // verifReadPatchContext (C10): the same statement over documents whose lists carry context lines
 // (null context values, keys that need pointer escaping) and targets that differ from a only there.
